@@ -225,7 +225,12 @@ int sqfs_block_processor_sync(sqfs_block_processor_t *proc)
 			return ret;
 	}
 
-	return 0;
+	/*
+	 * The pool hands back an item whose worker callback failed like any
+	 * other item, the failure is only recorded in the pool status. Nobody
+	 * may have looked at it since (no later submit, no NULL dequeue).
+	 */
+	return proc->pool->get_status(proc->pool);
 }
 
 int sqfs_block_processor_finish(sqfs_block_processor_t *proc)
